@@ -90,8 +90,8 @@ Proof.
 Qed.
 
 Section RecalcMin.
-  Variable gt : nat -> nat -> N -> N -> N * list cop.
-  Hypothesis gt_pure : forall x k now prev, snd (gt x k now prev) = [].
+  Variable gt : nmap -> nat -> nat -> N -> N -> N * list cop.
+  Hypothesis gt_pure : forall m x k now prev, snd (gt m x k now prev) = [].
 
   (* recalc_min: after the manager's recalculation sweep on a root r, in any reachable (Good) state:
      every node attached below r has a valid time and nothing awaits recalculation; the time mn reported to
